@@ -468,7 +468,7 @@ func runC07(prop string, res *Result, pool *DrvPool, r *Rng) {
 			if !segs[si].isDump() {
 				continue
 			}
-			junk := input[pos:strings.Index(input[pos:], segs[si].text)+pos]
+			junk := input[pos : strings.Index(input[pos:], segs[si].text)+pos]
 			if got := calls[ci].Res.Fwd.String(); got != junk {
 				bad(fmt.Sprintf("call %d forwarded %q, the text before the dump is %q", ci, clip(got), clip(junk)))
 			}
